@@ -32,6 +32,7 @@ func vNewNet(key []byte) *vNet {
 	}
 	for i := 0; i < n.npool; i++ {
 		n.pool[i][0] = vByte()
+		vAssume(n.pool[i][0] != 0) // the all-zero id is the library's "no node" sentinel (Closest/From)
 		if i > 0 {
 			vAssume(DistanceCmp(key, n.pool[i-1][:], n.pool[i][:]) < 0)
 		}
@@ -190,14 +191,17 @@ func VH_C20_getTruthful() bool {
 	vAssume(len(initial) > 0)
 	res, err := DHTGet(DHTGetParams{
 		Initial: initial, Key: key,
-		Validate: func(v []byte) bool { return len(v) == 1 && v[0] != 3 },
+		Validate: func(v []byte) bool { return len(v) == 1 && v[0] < 0x80 },
 		Ask: func(node NodeInfo, req GetReq) (GetRes, error) {
 			i, ok := n.contact(node)
 			if !ok {
 				return GetRes{}, vErrAsk
 			}
-			if vBool() {
-				n.values[i] = []byte{byte(i) + 1}
+			switch vInt(0, 2) {
+			case 1:
+				n.values[i] = []byte{byte(i) + 1} // a value that validates
+			case 2:
+				n.values[i] = []byte{0xF0 + byte(i)} // a forged value that does not
 			}
 			return GetRes{Value: n.values[i], Closer: n.respond()}, nil
 		},
@@ -217,7 +221,9 @@ func VH_C20_getTruthful() bool {
 			vAssert(false, "value-not-from-a-contacted-node")
 			return false
 		}
-		vAssert(len(res.Value) == 1 && res.Value[0] == byte(fi)+1 && res.Value[0] != 3, "value-not-what-that-node-returned-or-invalid")
+		vAssert(len(res.Value) == 1 && res.Value[0] == byte(fi)+1, "value-not-what-that-node-returned-or-invalid")
+	} else {
+		vAssert(res.Value == nil, "value-reported-although-nothing-validated")
 	}
 	if best, any := n.nearestRespondedGet(key); any {
 		bestC, _ := n.nearestAsked(key)
